@@ -203,6 +203,15 @@ type WalkScn struct {
 	// GC: a garbage collection runs between the walks of the scenario (after
 	// the warm-up walk, before the sequel walk) and inside the first callback
 	GC bool `json:"gc,omitempty"`
+	// Tree: how the walked tree came to be.  "" = commonmark.Parse.
+	// "prewalked" = the blocks were received from a BlockParser, WALKED
+	// (completely, with the default accessors and with the scenario's view)
+	// while their inlines were still unparsed, then completed with
+	// Extract + Rewrite - the tree the recorded walk sees is the rewritten one
+	// (a walker that remembers what a block's children were).  "unparsed" =
+	// the blocks are walked as NextBlock delivered them, never rewritten
+	// (UnparsedKind leaves are nodes like any other).
+	Tree string `json:"tree,omitempty"`
 }
 
 type TaskScn struct {
